@@ -326,7 +326,8 @@ fn token_rewrite_case<B: Backend>(c: &TokRewriteCase, acc: &mut Acc) -> R {
     let ks = KeySeed::from_u64(c.key % 8);
     crate::rng::reseed_case(hash_of(&(c.key, c.msg_len, c.footer_len)));
     let msg = crate::rng::det_bytes(c.key, 0xc10, c.msg_len as usize);
-    let footer = vec![0x66u8; c.footer_len as usize];
+    // (one case in eight has a footer of more than 1 KiB instead)
+    let footer = vec![0x66u8; if c.key % 8 == 7 { 1024 + c.footer_len as usize * 40 } else { c.footer_len as usize }];
     let aad: &[u8] = if c.with_assertion && B::VER.has_assertion() { b"assertion" } else { b"" };
     let purpose = if c.public { "public" } else { "local" };
     // (sealed under the plain encoding, sealed under the suffixed encoding)
@@ -389,7 +390,7 @@ fn token_rewrite_for<B: Backend>(out: &mut Vec<SubCheck>) {
         format!("c10.token-encoding-rewrite/{}", B::NAME),
         3,
         cases,
-        |_t| (any::<bool>(), any::<u64>(), prop_oneof![Just(0u16), 1u16..300], prop_oneof![Just(0u8), 1u8..40], any::<bool>()).prop_map(|(public, key, msg_len, footer_len, with_assertion)| TokRewriteCase { public, key, msg_len, footer_len, with_assertion }),
+        |_t| (any::<bool>(), any::<u64>(), prop_oneof![2 => Just(0u16), 6 => 1u16..300, 3 => prop::sample::select(vec![1023u16, 1024, 1025, 1500, 4096, 5000, 8192, 20000])], prop_oneof![Just(0u8), 1u8..40], any::<bool>()).prop_map(|(public, key, msg_len, footer_len, with_assertion)| TokRewriteCase { public, key, msg_len, footer_len, with_assertion }),
         |c: &TokRewriteCase, acc: &mut Acc| token_rewrite_case::<B>(c, acc),
     ));
 }
